@@ -25,6 +25,7 @@ INSTRUMENTED = [
     "internal/message/sub.go",
     "internal/message/id.go",
     "internal/network/listener/conn.go",
+    "internal/network/listener/matcher.go",
     "internal/network/websocket/websocket.go",
     "internal/network/mqtt/mqtt.go",
     "internal/network/mqtt/buffer.go",
